@@ -124,7 +124,9 @@ AuthorityClass(a) ==
                 LET rb == IndexOfByte(hp, 93)
                     inside == Slice(hp, 2, rb - 1)
                     after == DropN(hp, rb)
-                IN IF rb = 0 \/ Len(inside) = 0 \/ ~AllB(inside, IsIPLitByte) THEN "bad"
+                IN IF rb = 0 \/ Len(inside) = 0 THEN "bad"
+                   ELSE IF after # <<>> /\ (after[1] # COLON \/ ~AllB(DropN(after, 1), IsDigit)) THEN "bad"
+                   ELSE IF ~AllB(inside, IsIPLitByte) THEN "exotic"     \* IPvFuture etc.: left to the URL library
                    ELSE IF Len(after) = 0 THEN (IF at = 0 THEN "ok" ELSE "exotic")
                    ELSE IF after[1] # COLON \/ ~AllB(DropN(after, 1), IsDigit) THEN "bad"
                    ELSE IF at # 0 \/ Len(after) > 6 \/ Len(after) = 1 \/ PortTooBig(DropN(after, 1)) THEN "exotic" ELSE "ok"
